@@ -79,6 +79,13 @@ def observe_error(e):
             'frame': drive.exc_frame(e), 'msg': mask(str(e))[:600]}
 
 
+def _ntypes(prog):
+    try:
+        return len(prog.required_type_definitions or {})
+    except Exception:
+        return 0
+
+
 class _Quiet(object):
     def __enter__(self):
         self.a = contextlib.redirect_stdout(io.StringIO())
@@ -102,6 +109,7 @@ class Session(object):
         self.pool = pool                           # id -> item
         self.kept_rules = {}                       # id -> (rules object, pre-copy)
         self.kept_prog = {}                        # id -> LogicaProgram
+        self.kept_types0 = {}                      # id -> #type definitions at creation
         self.tmp = None
         self.files_root = {}
 
@@ -179,14 +187,21 @@ class Session(object):
                     rules, pre = self.kept_rules[item['id']]
                     prog = self.universe.LogicaProgram(rules, user_flags=dict(flags))
                     self.kept_prog[item['id']] = prog
+                    self.kept_types0[item['id']] = _ntypes(prog)
                     sql = prog.FormattedPredicateSql(st[2])
                     o = observe(prog, sql)
                     o['rules_unchanged'] = bool(rules == pre)
                     return o
                 if kind == 'again':
                     prog = self.kept_prog[item['id']]
+                    # measured (never compared): the program object holds record type
+                    # definitions it did not have when it was created, i.e. gathered
+                    # while an earlier predicate was compiled (class D13 of c13.py)
+                    carried = _ntypes(prog) > self.kept_types0.get(item['id'], 0)
+                    self._carried = carried
                     sql = prog.FormattedPredicateSql(st[2])
                     o = observe(prog, sql)
+                    o['types_carried'] = carried
                     rules, pre = self.kept_rules[item['id']]
                     o['rules_unchanged'] = bool(rules == pre)
                     return o
@@ -197,6 +212,8 @@ class Session(object):
                 if kind in ('compile_kept', 'again') and item['id'] in self.kept_rules:
                     rules, pre = self.kept_rules[item['id']]
                     o['rules_unchanged'] = bool(rules == pre)
+                if kind == 'again':
+                    o['types_carried'] = bool(getattr(self, '_carried', False))
                 if kind == 'parse':
                     self.kept_rules.pop(item['id'], None)
                     return None
